@@ -82,8 +82,14 @@ def build_jobs(ctx, rng):
             if 'max_iter' in e['params']:
                 base['max_iter'] = 3
             svs = [kw for kw in M.single_variants(name, e, two_d, base=base) if kw.get('max_iter', 0) <= 5 and kw.get('tol', 1) != 0.0]
-            k = len(svs) if ctx.thorough else min(len(svs), 1 if two_d else 3)
-            for i in (sorted(rng.choice(len(svs), k, replace=False)) if svs else []):
+            k = len(svs) if ctx.thorough else min(len(svs), 1 if two_d else 5)
+            picked = set(int(i) for i in (rng.choice(len(svs), k, replace=False) if svs else []))
+            # parameters for which nobody listed alternative values (their variants are derived from the default: the neutral value 1,
+            # half, twice) are reached by no other generator: those variants are always kept
+            if not two_d:
+                picked |= {i for i, kwv in enumerate(svs) if any(pn not in M.ALT_VALUES and pn not in M.STR_VALUES and not isinstance(v, bool) and base.get(pn, e['params'].get(pn)) != v
+                                                               for pn, v in kwv.items() if pn in e['params'])}
+            for i in sorted(picked):
                 add(name, svs[int(i)], two_d=two_d, tag='.var')
     # A3. every 1-D method on other data kinds: a 1e6 offset with little noise, and data scaled by 1e-6 / 1e6 (the fall-back
     # implementations must be as accurate as the accelerated ones, not only algebraically equal)
